@@ -15,7 +15,8 @@ TX_IFACE = {"pkgpath": "github.com/ProtonMail/gluon/db", "iface": "Transaction"}
 COMPONENTS = {
     "state_export": {"dir": "internal/state", "pkgname": "state", "files": ["zz_verif_fixture.go", "zz_verif_export.go"], "vsym": True,
                      "gen_stubs": [dict(TX_IFACE, type="verifTxBase")]},
-    "backend_export": {"dir": "internal/backend", "pkgname": "backend", "files": ["zz_verif_export.go"], "vsym": False},
+    "backend_export": {"dir": "internal/backend", "pkgname": "backend", "files": ["zz_verif_export.go", "zz_verif_backend.go", "zz_verif_c02.go"], "vsym": True,
+                       "gen_stubs": [{"pkgpath": "github.com/ProtonMail/gluon/connector", "iface": "Connector", "type": "verifConnBase"}]},
     "verifdb": {"dir": "internal/verifdb", "pkgname": "verifdb", "files": ["db.go", "tx.go"], "vsym": True,
                 "gen_stubs": [dict(TX_IFACE, type="txBase")]},
 }
@@ -236,7 +237,7 @@ CHECKS["C14"] = {
          "files": ["zz_verif_c14.go", "zz_verif_c17.go"] + STATE_FILES, "with": ["verifdb"], "gen_stubs": [TX_STUB],
          "params": {"quick": [{}], "thorough": [{}]}, "cover": ["list-done"]},
         {"name": "decode", "pkg": "internal/session", "pkgname": "session", "entry": "VerifC14Decode", "files": ["zz_verif_c14.go"],
-         "with": ["backend_export"], "params": {"quick": [{}], "thorough": [{}]}, "cover": ["decoded"]},
+         "with": ["backend_export", "state_export", "verifdb"], "params": {"quick": [{}], "thorough": [{}]}, "cover": ["decoded"]},
     ],
     "stubs": ["internal/verifdb relational model (UNIQUE name / remote id)", "state.Connector stub: CreateMailbox returns a fresh remote id"],
     "outside": ["LIST/LSUB wildcard matching: match() compiles the pattern to a regexp and runs the std regexp engine - not encodable within reach, so 'LIST returns exactly the names RFC 3501 selects' is not decided", "modified UTF-7 names", "connector-side mailbox updates (see C06)"],
@@ -260,7 +261,7 @@ CHECKS["C15"] = {
 C10_FILES = ["zz_verif_c10.go", "zz_verif_c10b.go", "zz_verif_c10c.go", "zz_verif_reader.go"]
 
 CHECKS["C10"] = {
-    "explanation": "The harness is a printer: it builds the byte string of a command from an abstract command whose leaves are symbolic (tag bytes, letter case of every keyword character, each string argument in atom / quoted / literal encoding with symbolic payload bytes, digit strings, sequence sets, optional short reads), feeds it through command.Parser.Parse (real go/ssa of imap/command and rfcparser) and compares the result with the abstract command.",
+    "explanation": "The harnesses are printers: each builds the byte string of a command from an abstract command whose leaves are symbolic (tag bytes, letter case of every keyword character, each string argument in atom / quoted / literal encoding with symbolic payload bytes, digit strings, sequence sets, flag lists, fetch attributes with sections and partials, search-key trees, dates and date-times, optional short reads), feeds it through command.Parser.Parse (real go/ssa of imap/command and rfcparser) and compares the parsed command with the abstract one, field by field.  Families: string/mailbox commands (LOGIN, SELECT, EXAMINE, CREATE, DELETE, SUBSCRIBE, UNSUBSCRIBE, RENAME, COPY, MOVE, STATUS), FETCH, STORE, SEARCH, APPEND, LIST/LSUB/ID/UID EXPUNGE and the commands without arguments; UID prefixes.  The dimensions (letter case, tag, encodings, set numbers, chunking) are made symbolic one family at a time, not as one product.",
     "harnesses": [
         {"name": "strings", "pkg": "imap/command", "pkgname": "command", "entry": "VerifC10Strings", "files": C10_FILES,
          "params": {"quick": grid(cmd=[1], symcase=[1], symtag=[0], len=[1], chunked=[0]) + grid(cmd=[1], symcase=[0], symtag=[1], len=[1], chunked=[0]) + grid(cmd=[1], symcase=[0], symtag=[0], len=[1, 2, 3], chunked=[0]) + grid(cmd=[0, 8], symcase=[0], symtag=[0], len=[1], chunked=[0], bigset=[1]) + grid(cmd=[1], symcase=[0], symtag=[0], len=[2], chunked=[1]), "thorough": grid(cmd=[-1], symcase=[0,1], symtag=[0], len=[1, 2, 3, 5], chunked=[0, 1])},
@@ -276,14 +277,14 @@ CHECKS["C10"] = {
                     "thorough": grid(fam=[0], depth=[1], nkeys=[0, 1], symcase=[0, 1]) + grid(fam=[1], slen=[0, 1, 2], symcase=[0, 1], nkeys=[0, 1]) + grid(fam=[2], symcase=[1], nkeys=[0, 1])},
          "summarise": SCAN_SUMMARISE, "cover": []},
         {"name": "append", "pkg": "imap/command", "pkgname": "command", "entry": "VerifC10Append", "files": C10_FILES,
-         "params": {"quick": grid(litlen=[0, 2], symcase=[0]), "thorough": grid(litlen=[0, 1, 2, 4], symcase=[0, 1], chunked=[0, 1])},
+         "params": {"quick": grid(fam=[0, 1], litlen=[0], symcase=[0]) + grid(fam=[1], litlen=[3], symcase=[1], chunked=[1]), "thorough": grid(fam=[0, 1, 2], litlen=[0, 1, 2, 4], symcase=[0, 1], chunked=[0, 1])},
          "summarise": SCAN_SUMMARISE, "cover": []},
         {"name": "misc", "pkg": "imap/command", "pkgname": "command", "entry": "VerifC10Misc", "files": C10_FILES,
          "params": {"quick": grid(symcase=[1]), "thorough": grid(symcase=[1], symtag=[0, 1], bigset=[0, 1])},
          "summarise": SCAN_SUMMARISE, "cover": []},
     ],
-    "stubs": ["rfcparser.Reader -> fixed buffer, optional symbolic short reads"],
-    "outside": ["bufio.Reader between socket and scanner", "string payloads longer than the bound", "numbers beyond 32 bits (C16)", "atoms containing '[' and empty literals ({0}), which the server's grammar subset does not accept"],
+    "stubs": ["rfcparser.Reader -> fixed buffer, optional symbolic short reads", "time.Date with symbolic fields -> injective packing of the fields and zone offset"],
+    "outside": ["bufio.Reader between socket and scanner", "string payloads longer than the bound", "numbers beyond 32 bits (C16)", "atoms containing '[' and empty literals ({0}), which the server's grammar subset does not accept", "the full product of all symbolic dimensions (each family fixes the dimensions it does not vary)", "calendar arithmetic inside time.Date (injective packing stub: the parser must pass the written fields)", "IDLE continuation / DONE, AUTHENTICATE (not registered)"],
     "assumptions": ["commands are generated from the RFC 3501/4315/6851/2971 grammar restricted to what command.NewParser registers"],
 }
 
@@ -340,7 +341,13 @@ CHECKS["C18"] = {
          "params": {"quick": [{}], "thorough": [{}]}, "cover": ["refused-not-authenticated", "refused-not-selected", "login-twice"]},
         {"name": "jail", "pkg": "internal/backend", "pkgname": "backend", "entry": "VerifC18Jail", "files": ["zz_verif_backend.go"], "with": BACKEND_WITH,
          "gen_stubs": [{"pkgpath": "github.com/ProtonMail/gluon/connector", "iface": "Connector", "type": "verifConnBase"}],
-         "params": {"quick": [{"faults": 0}], "thorough": [{"faults": 0}]}, "cover": ["login-ok", "jail-entered", "failure-counted"]},
+         "params": {"quick": grid(k=[3, 4]), "thorough": grid(k=[5, 6])}, "cover": ["login-ok", "jail-entered", "failure-counted"]},
+        {"name": "login", "pkg": "internal/session", "pkgname": "session", "entry": "VerifC18Login", "files": ["zz_verif_c18.go", "zz_verif_c18b.go"],
+         "with": ["state_export", "backend_export", "verifdb"],
+         "params": {"quick": [{}], "thorough": [{}]}, "cover": ["login-refused", "login-accepted"]},
+        {"name": "afterclose", "pkg": "internal/session", "pkgname": "session", "entry": "VerifC18AfterClose", "files": ["zz_verif_c18.go", "zz_verif_c18b.go"],
+         "with": ["state_export", "backend_export", "verifdb"],
+         "params": {"quick": [{}], "thorough": [{}]}, "cover": ["after-close"]},
     ],
     "stubs": ["connector.Connector stub (Authorize returns a chosen answer)", "time.AfterFunc -> recorded, never fired", "sync.WaitGroup / Mutex -> single-goroutine model (Wait on a non-zero group = BLOCKED)", "profiling / observability / reporter / logrus -> no-op"],
     "outside": ["'each user has its own database, store and connector' is object wiring, not a computation", "real time (that the jail lasts exactly loginJailTime)", "commands after CLOSE/UNSELECT in a full session (the state without snapshot is the same protocol state)"],
